@@ -30,6 +30,31 @@ func vStub_os_File_Read(f *os.File, p []byte) (int, error) {
 }
 func vStub_os_File_Close(f *os.File) error { return nil }
 
+// Seek: on a read handle it moves the cursor (the download path may use it to honour a resume offset). On a handle
+// of the writable namespace (those are opened for appending) the offset is 0 until the first write through that
+// handle and the end of the file after it, as the operating system reports it for O_APPEND.
+func vStub_os_File_Seek(f *os.File, offset int64, whence int) (int64, error) {
+	d := vFiles[f]
+	if d == nil {
+		if name, ok := vNSOpen[f]; ok {
+			if i := vNSFind(name); i >= 0 && vNSWrote[f] {
+				return int64(len(vNSData[i])), nil
+			}
+			return 0, nil
+		}
+		return 0, fs.ErrInvalid
+	}
+	switch whence {
+	case 0:
+		d.pos = int(offset)
+	case 1:
+		d.pos += int(offset)
+	default:
+		d.pos = len(d.data) + int(offset)
+	}
+	return int64(d.pos), nil
+}
+
 type vInfo struct {
 	name string
 	size int64
